@@ -138,8 +138,38 @@ def audit(force=False):
     return res
 
 
+def _drop_stale_build_files():
+    """compiled files whose source no longer exists (a renamed or split module) are not part of the library, but
+    leanchecker picks up every .olean under the module prefix: remove them"""
+    lib = os.path.join(LEAN, ".lake", "build", "lib", "lean")
+    for root, _, files in os.walk(lib):
+        for f in files:
+            base = f.split(".")[0]
+            rel = os.path.relpath(os.path.join(root, base), lib)
+            if not os.path.exists(os.path.join(LEAN, rel + ".lean")):
+                try:
+                    os.remove(os.path.join(root, f))
+                except OSError:
+                    pass
+
+
 def leanchecker(modules=("MoThreads",)):
+    """re-check the compiled modules with the independent checker; the verdict is cached per source hash (work/leanchecker.json)"""
+    _drop_stale_build_files()
+    cache = os.path.join(VERIF, "work", "leanchecker.json")
+    h = None
+    try:
+        h = json.load(open(os.path.join(VERIF, "work", "audit.json"))).get("hash")
+        c = json.load(open(cache))
+        if h and c.get("hash") == h and c.get("modules") == list(modules):
+            return c["ok"], c["out"]
+    except Exception:
+        pass
     rc, out = run(["lake", "env", "leanchecker"] + list(modules), LEAN, timeout=3600)
+    try:
+        json.dump({"hash": h, "modules": list(modules), "ok": rc == 0, "out": out[-2000:]}, open(cache, "w"))
+    except Exception:
+        pass
     return rc == 0, out[-2000:]
 
 
